@@ -669,7 +669,7 @@ func C09_Run(job string) {
 // C13 — Parse and Validate agree on fully populated values.
 
 func C13_Jobs() []string {
-	out := []string{"post/prim", "post/struct", "post/slice", "post/catch", "post/slice-tests"}
+	out := []string{"post/prim", "post/struct", "post/slice", "post/catch", "post/slice-tests", "post/custom-writes"}
 	for _, j := range shapeJobs() {
 		m, _, _, _ := split3(j)
 		if m == "validate" {
@@ -771,6 +771,37 @@ func c13Post(kind string) {
 	}
 	var l1, l2 string
 	switch kind {
+	case "custom-writes":
+		// a custom schema function that writes through its pointer (canonicalising the value):
+		// what it wrote is the resulting value in both modes, wherever the custom node sits
+		g := v.Int("g")
+		canon := func() *z.Custom[int] {
+			return z.CustomFunc(func(p *int, ctx z.Ctx) bool { *p = *p + 1; return *p > g })
+		}
+		type D struct {
+			C  int
+			L  []int
+			PC *int
+		}
+		sc := z.Struct(z.Schema{"c": canon(), "l": z.Slice(canon()), "pC": z.Ptr(canon())})
+		px := x
+		d1 := D{C: x, L: []int{x, x}, PC: &px}
+		var d2 D
+		e1 := sc.Validate(&d1)
+		e2 := sc.Parse(map[string]any{"c": x, "l": []any{x, x}, "pC": x}, &d2)
+		if e1 == nil {
+			v.Cover("agree-clean")
+		} else {
+			v.Cover("agree-issues")
+		}
+		v.Assert(sameFullMaps(e1, e2), "C13:issues-differ-between-modes")
+		v.Assert(d1.C == x+1 && d2.C == d1.C && len(d2.L) == 2 && d2.L[0] == d1.L[0] && d2.L[1] == d1.L[1] && d1.L[1] == x+1, "C13:values-differ-between-modes")
+		v.Assert(d2.PC != nil && *d2.PC == *d1.PC && *d1.PC == x+1, "C13:values-differ-between-modes")
+		t1, t2 := x, 0
+		l1s := canon().Validate(&t1)
+		l2s := canon().Parse(x, &t2)
+		v.Assert(fullCodes(l1s) == fullCodes(l2s) && t1 == t2 && t1 == x+1, "C13:values-differ-between-modes")
+		return
 	case "prim":
 		build := func(log *string) *z.NumberSchema[int] {
 			return z.Int().PostTransform(mk(log, 0)).PostTransform(mk(log, 1)).PostTransform(mk(log, 2))
